@@ -180,17 +180,36 @@ def dispatch(rep, ex: Explorer, report=True):
     for name in names:
         per_backend = {}
         for backend in ("z3", "rc2", "rc2-g4", ""):
-            def setup(I, name=name, backend=backend):
+          for done in (False, True):
+            held_es = {}
+
+            def setup(I, name=name, backend=backend, held_es=held_es, done=done):
                 bb = make_belief_base(I)
-                es = make_epistemic_state(I, bb, name, pmaxsat=Const(backend))
+                es = make_epistemic_state(I, bb, name, pmaxsat=Const(backend), extra={"preprocessing_done": Const(done)})
+                held_es["es"] = es
                 return [es], {}
 
-            paths = ex.run(qual, setup, summaries={}, key=f"dispatch-{name}-{backend}")
+            paths = ex.run(qual, setup, summaries={}, key=f"dispatch-{name}-{backend}-{done}")
+            for p in paths:
+                rv_ = p.outcome[1] if p.outcome[0] == "return" else None
+                if rv_ is not None and not isinstance(rv_, Ref):
+                    # not an object made here: e.g. one kept in module-level state under a key that does not name this state
+                    why = "; ".join(show_pred(k if v else ("not", k))[:80] for k, v in p.decisions if k[0] == "in")
+                    rep.violation("DISPATCH", site, f"operator object of {name} (preprocessing_done={done})", "every call builds an operator object over the state it is given (an object kept elsewhere belongs to whatever state it was built for)",
+                                  extracted=f"returns {rv_!r}"[:120] + (f" when {why}" if why else ""), required="a new operator over this state", function=site)
+            paths = [p for p in paths if not (p.outcome[0] == "return" and not isinstance(p.outcome[1], Ref))]
+            if not paths:
+                continue
             outs = set()
             for p in paths:
                 if p.outcome[0] == "return" and isinstance(p.outcome[1], Ref):
                     o = p.state.heap[p.outcome[1].oid]
                     outs.add(o.cls if isinstance(o, HObj) else None)
+                    if isinstance(o, HObj) and held_es.get("es") is not None:
+                        got_es = o.attrs.get("epistemic_state")
+                        same = isinstance(got_es, Ref) and got_es.oid == held_es["es"].oid
+                        rep.check(same, "DISPATCH", site, f"state of {name}", "the operator works on the caller's epistemic state itself (what preprocessing records there - flags, times, partition - is what the manager reads afterwards)",
+                                  extracted="a copy / another object" if not same else "the state handed in", required="the state handed in", function=site)
                 elif p.outcome[0] == "raise":
                     outs.add("raise")
                 else:
@@ -369,6 +388,12 @@ def _refuse_manager(rep, ex: Explorer):
             okq = isinstance(qv, Ref) and qv == qref.get("q") and tv == Sym("timeout", "int")
             rep.check(okq, "ROWS.key", f"{site}:{ev.node.lineno}", f"arguments of {ev.func}", "the submitted queries and the per-query budget are handed to the evaluation wrapper in their own roles",
                       extracted=f"queries={qv!r}, timeout={tv!r}", required="(queries, timeout)", function=site)
+        if p.outcome[0] == "raise" and dele and getattr(p.outcome[1], "cls", "") in ("ZeroDivisionError", "KeyError", "IndexError", "TypeError", "AttributeError", "ValueError", "UnboundLocalError", "NameError") \
+                and not (isinstance(getattr(p.outcome[1], "origin", None), tuple) and p.outcome[1].origin[:1] == ("delegate",)):
+            # the queries were evaluated and the call still ends in an exception of its own bookkeeping (a statistic over the
+            # rows, a log record): the rows - flagged ones included - never reach the caller
+            rep.violation("TIMEOUT.row", site, "escaping exception", "once the queries are evaluated the rows are handed back whatever they hold (all answered, all expired, none at all)",
+                          extracted=f"{p.outcome[1]!r} from {getattr(p.outcome[1], 'origin', None)!r}"[:160], required="the rows", function=site)
         if done is False and pto is False:
             n += 1
             rep.check(p.outcome[0] == "raise" and not dele, "REFUSE", site, "not preprocessed", "queries are refused when the base was never preprocessed",
@@ -930,6 +955,15 @@ def _multi(rep, ex: Explorer, stats):
                 oid = procs[k][0]
                 seq = [ev.kind for ev in evs if ev.kind in ("mp.start", "mp.join", "mp.terminate") and isinstance(ev.obj, Ref) and ev.obj.oid == oid]
                 rep.check(seq.count("mp.start") == 1 and seq[:1] == ["mp.start"], "PAR.join", site, "process started", "every created process is started (once, before anything else)", extracted=" ".join(seq), required="start ...", function=site)
+                # the join before the liveness test gives the worker its time: join(0) returns at once (0 is "no limit" in
+                # this library's budgets, not in Process.join) and every worker would be terminated as a straggler
+                j1 = [ev for ev in evs if ev.kind == "mp.join" and isinstance(ev.obj, Ref) and ev.obj.oid == oid][:1]
+                if j1:
+                    tmo = j1[0].data.get("timeout")
+                    zero = (isinstance(tmo, Const) and isinstance(tmo.value, (int, float)) and not isinstance(tmo.value, bool) and tmo.value <= 0) or \
+                        (isinstance(tmo, LinV) and F.lin_is_const(tmo.lin) and tmo.lin[1] <= 0)
+                    rep.check(not zero, "PAR.join", f"{site}:{j1[0].node.lineno}", "worker given its time", "the join in front of the liveness test waits for the worker (the budget, or without limit)",
+                              extracted=f"join({tmo!r})" + ("" if not zero else " returns immediately: every worker is cut off"), required="join(budget) / join()", function=site)
                 if alive.get(k) is True:
                     ok = "mp.terminate" in seq and seq[-1] == "mp.join" and "mp.join" in seq[:seq.index("mp.terminate")]
                     rep.check(ok, "PAR.join", site, "straggler reaped", "a worker still alive after the timed join is terminated and joined", extracted=" ".join(seq), required="start join terminate join", function=site)
@@ -1016,6 +1050,7 @@ def _manager_rows(rep, ex: Explorer, stats):
         es = make_epistemic_state(I, bb, "system-z")
         holder["es"] = es
         s = I.alloc(HObj("inference.inference_manager.InferenceManager", {"epistemic_state": es}))
+        holder["self"] = s
         qs = I.alloc(HObj("inference.queries.Queries", {"conditionals": _queries(I), "name": Sym(("qname",), "str"), "signature": Sym("qsig")}))
         return [s, qs], {}
 
@@ -1060,6 +1095,15 @@ def _manager_rows(rep, ex: Explorer, stats):
                 rep.check(okpos, "ROWS.order", f"{site}:{ev.node.lineno}", f"row of column {col}", "all cells of a query go to the row of its position in the submitted order", extracted=repr(rowpos), required="row = position of the query", function=site)
                 rowposs.add(rowpos)
         rep.check(len(rowposs) == 1, "ROWS.columns", site, "one row per query", "all cells of a query land in one and the same row", extracted=f"{len(rowposs)} different row positions", required="one", function=site)
+        # the table the rows are written into is made for this call: a frame kept by the manager would still hold the rows of
+        # earlier calls (and a table handed out earlier would change under its owner's hands)
+        frames_ = {repr(desc(ev.obj)) for ev in cols.values()}
+        kept = [f_ for f_ in frames_ if "('ref', %d)" % holder["self"].oid in f_ or "'global'" in f_] if holder.get("self") is not None else []
+        made = [f_ for f_ in frames_ if "DataFrame" in f_]
+        if frames_ and not kept and len(made) != len(frames_):
+            raise AnalysisError(f"{site}: cannot tell where the report table comes from: {sorted(frames_)[0][:160]}")
+        rep.check(not kept, "ROWS.columns", site, "table of this call", "the report table is created by the call that fills it (no rows of earlier calls, no table handed out before)",
+                  extracted=(f"written into an object the manager keeps: {kept[0][:120]}" if kept else "a new table"), required="a new table per call", function=site)
         for col in ("index", "result", "inference_timed_out", "preprocessing_timed_out"):
             rep.check(col in cols, "ROWS.columns", site, f"column {col} present", f"the report has the column {col}", extracted=str(sorted(cols)), required=col, function=site)
         if "preprocessing_timed_out" in cols:
